@@ -64,7 +64,7 @@ META = dict(
     "at refcount-zero of a dropref or inside an enumerated gc.",
     rule="state = deep canonical form of route A's Session + which names the harness holds; transition = one op applied to "
     "both routes; non-trivial = the history contains >= 1 dropref before the op and >= 1 object is pending / dirty / "
-    "marked deleted in route B",
+    "marked deleted in route B before or after the op",
     assumptions=["single Session, single thread, CPython reference counting, gc.disable() outside enumerated gc ops"],
     bounds=dict(quick="depth <= 5 beyond the two initial loads, expire_on_commit True", thorough="depth <= 6 with expire_on_commit True, depth <= 5 with expire_on_commit False"),
 )
@@ -89,13 +89,14 @@ def make_cfg(eoc):
 
 
 class Light:
-    __slots__ = ("held", "nsp", "drops")
+    __slots__ = ("held", "nsp", "drops", "keep")
 
-    def __init__(self, held=("c2", "b1", "b2"), nsp=0, drops=0):
-        self.held, self.nsp, self.drops = tuple(held), nsp, drops
+    def __init__(self, held=("c2", "b1", "b2"), nsp=0, drops=0, keep=()):
+        # keep: what the session had to retain before the next op (bookkeeping for the evidence only)
+        self.held, self.nsp, self.drops, self.keep = tuple(held), nsp, drops, tuple(keep)
 
     def copy(self):
-        return Light(self.held, self.nsp, self.drops)
+        return Light(self.held, self.nsp, self.drops, self.keep)
 
     def canon(self):
         return (self.held, self.nsp)
@@ -244,7 +245,9 @@ def check_step(cfg, hist_, ms, op):
         m2.held = tuple(held_after)
         m2.nsp = len(wa.sps)
         m2.drops = ms.drops + (1 if op[0] == "dropref" else 0)
-        nontrivial = ms.drops > 0 and bool(must_keep) and op[0] not in DROP_OPS
+        m2.keep = tuple(must_keep)
+        info["retained_before"] = list(ms.keep)
+        nontrivial = ms.drops > 0 and bool(ms.keep or must_keep) and op[0] not in DROP_OPS
         released = [n for n in names if flags_b[n][0] and not (wa.weak.get(n) and wa.weak[n]() is not None)]
         info["released"] = released
         return problems, m2, canon, info, terminal, nontrivial
@@ -268,7 +271,7 @@ def make_step(cfg, rec):
         if info.get("released"):
             rec.count("steps after which >= 1 object had been released")
         if nontrivial and info.get("released") and op[0] in ("flush", "commit"):
-            rec.sample(dict(eoc=cfg["eoc"], history=[list(h) for h in hist_], op=list(op), retained=info["must_keep"], released=info["released"], rows=repr(info.get("rows_a"))), limit=3)
+            rec.sample(dict(eoc=cfg["eoc"], history=[list(h) for h in hist_], op=list(op), had_to_retain=info["retained_before"], released=info["released"], rows=repr(info.get("rows_a"))), limit=3)
         return m2, (cfg["eoc"], m2.canon(), canon)
 
     return step
@@ -294,7 +297,7 @@ def run_shard(shard, tier, rec):
             ms0 = Light()
             depth = DEPTH[tier] - (0 if eoc else 1)
             d = W.explore_levels(
-                rec, ID, [((), ms0, ("root", eoc))], enabled, lambda r, cfg=cfg: make_step(cfg, r), depth, jobs, warm=[(cfg, WARM)]
+                rec, ID, [((), ms0, ("root", eoc))], enabled, lambda r, cfg=cfg: make_step(cfg, r), depth, jobs, warm=[(cfg, WARM)], ctx=dict(eoc=eoc)
             )
             rec.count("depth completed eoc=%s" % eoc, d)
     finally:
@@ -309,6 +312,8 @@ def _tuplify(x):
 
 
 def replay(case):
+    if case.get("kind") == "hang":  # recorded by the per-step watchdog: re-run the step without a limit
+        case = dict(case.get("ctx") or {}, history=case["history"], op=case["op"])
     gc.disable()
     try:
         cfg = make_cfg(case["eoc"])
